@@ -161,6 +161,32 @@ def rule_scan_all(ctx, rep, rule_id="R-SCAN-ALL-ELEMENTS"):
         "first element, so e.g. an 'is the key already there?' scan answers for the first key only and the codemod adds it again",
         min_instances=50,
     )
+    def never_iterates_again(stmts) -> bool:
+        """every path through the loop body ends the loop (return / raise / break); a path that ends in `continue`, or falls off the end of
+        the body, reaches the next element"""
+        for i, st in enumerate(stmts):
+            if isinstance(st, (ast.Return, ast.Raise, ast.Break)):
+                return True
+            if isinstance(st, ast.Continue):
+                return False
+            if isinstance(st, ast.If):
+                a, b = never_iterates_again(st.body), never_iterates_again(st.orelse) if st.orelse else False
+                if a and b:
+                    return True
+                # an arm that ends in `continue` goes to the next element, whatever the other arm and the following statements do
+                if any(isinstance(x, ast.Continue) for arm in (st.body, st.orelse) for x in ast.walk(ast.Module(body=arm, type_ignores=[]))):
+                    return False
+            elif isinstance(st, ast.Try):
+                if never_iterates_again(st.body) and all(never_iterates_again(h.body) for h in st.handlers) and (not st.orelse or never_iterates_again(st.orelse)):
+                    return True
+            elif isinstance(st, (ast.With, ast.AsyncWith)):
+                if never_iterates_again(st.body):
+                    return True
+            elif isinstance(st, ast.Match):
+                if st.cases and all(never_iterates_again(c.body) for c in st.cases) and any(isinstance(c.pattern, ast.MatchAs) and c.pattern.pattern is None and c.guard is None for c in st.cases):
+                    return True
+        return False
+
     classes = set(ctx.registry.transformer_classes().keys())
     if len(classes) < 50:
         raise AnalysisError("registry model lists fewer than 50 transformer classes")
@@ -180,7 +206,7 @@ def rule_scan_all(ctx, rep, rule_id="R-SCAN-ALL-ELEMENTS"):
                 if not branches:
                     continue  # `for x in xs: return x` (first element on purpose) decides nothing per element
                 n += 1
-                rep.check(rule_id, m.qname, m.loc(lp), not _always_exits(lp.body), f"for {unparse(lp.target)[:20]} in {unparse(lp.iter)[:30]}",
+                rep.check(rule_id, m.qname, m.loc(lp), not never_iterates_again(lp.body), f"for {unparse(lp.target)[:20]} in {unparse(lp.iter)[:30]}",
                           f"every path through the body of `for {unparse(lp.target)} in {unparse(lp.iter)[:40]}` leaves the function: only the first element is ever examined")
     if n < 50:
         raise AnalysisError(f"only {n} deciding loops found in codemod classes")
